@@ -9,6 +9,9 @@ a small state machine over the operations that touch `state`, `_locks` or `_last
   add_traj             assertion, `_last_prob = None`, row written, `unlock`, then `self.prob`
   sort_trajstate       loop of bare `swap`s, then `_last_prob = None`, then `self.prob`
   pick / pick_traj_ens read `self.prob`, `swap(traj, ens)`, `lock(ens)`
+  pick_lock (re-issue) per recorded (ens, path): `swap(traj_idx, ens)`, `lock(ens)` — WITHOUT reading `prob` first
+                       (a restart re-issues the jobs that were in flight; the cache may be non-empty then: the
+                       `add_traj`s of `load_paths` have filled it)
   treat_output         `if self._last_prob is None: self.prob`, then reads `_last_prob`   (= the getter)
   print_state          the same, but resets `_last_prob = None` at the end if it was None on entry
 
@@ -84,6 +87,10 @@ def swapLock (c : C) (t e : Nat) : Except CErr (C × List Use) :=
     | .error er => .error er
     | .ok c2 => .ok (c2, [u])
 
+/-- one (ens, path) pair of the re-issue branch of `pick_lock`: `swap(traj_idx, ens)`, `lock(ens)`; `prob` is not
+    read, the possibly non-empty cache is crossed by the bare swap and emptied by the lock -/
+def reissue (c : C) (t e : Nat) : Except CErr C := lock (rawSwap c t e) e
+
 /-- `add_traj(ens, traj, valid)` -/
 def addTraj (c : C) (ens : Int) (pn : Nat) (valid : List Rat) : Except CErr (C × List Use) :=
   match Repex.addTraj c.s ens pn valid with
@@ -120,6 +127,7 @@ inductive Op where
   | sort                                            -- sort_trajstate
   | printState
   | rawSwap (t e : Nat)                             -- a bare swap(): not a step the sampler ever takes on its own
+  | reissue (t e : Nat)                             -- pick_lock re-issuing a recorded job: swap, lock (no read)
   deriving Repr, DecidableEq
 
 def isPublic : Op → Bool
@@ -144,6 +152,10 @@ def step (c : C) : Op → Except CErr (C × List Use)
   | .sort => sortTrajstate (Repex.sortFuel c.s) c
   | .printState => printState c
   | .rawSwap t e => .ok (rawSwap c t e, [])
+  | .reissue t e =>
+    match reissue c t e with
+    | .error er => .error er
+    | .ok c' => .ok (c', [])
 
 /-- run a list of operations; stops at the first exception (as the program does) -/
 def run (c : C) : List Op → Except CErr (C × List Use)
